@@ -7,6 +7,7 @@ import (
 	"fmt"
 	"io"
 	"net"
+	"os"
 	"sort"
 	"strconv"
 	"strings"
@@ -20,6 +21,8 @@ import (
 
 	"github.com/spf13/afero"
 	"github.com/yandex/pandora/core/engine"
+	"go.uber.org/zap"
+	"go.uber.org/zap/zapcore"
 	"pgregory.net/rapid"
 )
 
@@ -28,7 +31,9 @@ type Entry struct {
 	Slash  bool     `json:"trailing_slash"`
 	Tag    string   `json:"tag"`
 	Status int      `json:"status"`
-	Fail   string   `json:"fail"` // "" | reset | timeout | short_body
+	// "" | reset | timeout | short_body (Content-Length larger than what is sent before the close) |
+	// short_chunked (a chunked body that ends inside a chunk). The last two fail AFTER status line and headers arrived.
+	Fail string `json:"fail"`
 	// NoPath: the request URI has no path at all (url.URL.Path == ""), so there is nothing to derive an auto-tag from:
 	//   abs        http://e<i>.c10.example       (uri / raw: absolute URI; http/json: host + empty uri)
 	//   abs_query  http://e<i>.c10.example?k=v
@@ -53,6 +58,42 @@ type HTTPCase struct {
 	JSONLayout string `json:"json_layout,omitempty"`
 	Preload    bool   `json:"preload,omitempty"`
 	Limit      int    `json:"limit,omitempty"`
+	// What the run logs, which is no part of what a sample says: LogLevel is the level of the logger the engine (and so
+	// every gun, through Bind) gets - "" drops everything, "info", "debug" (config `log: level: debug`; the guns then
+	// log every request and response with their bodies); AnswLog is the gun's `answlog` section: "" = not enabled,
+	// else enabled with that filter (all | warning = 4xx and 5xx | error = 5xx), which dumps request and response.
+	LogLevel string `json:"log_level,omitempty"`
+	AnswLog  string `json:"answlog,omitempty"`
+}
+
+// bodyCut: the exchange fails after status line and headers were received, while the body is read.
+func (e Entry) bodyCut() bool { return e.Fail == "short_body" || e.Fail == "short_chunked" }
+
+// answLogged: the gun's answ log dumps this entry's exchange.
+func (c HTTPCase) answLogged(e Entry) bool {
+	switch c.AnswLog {
+	case "all":
+		return true
+	case "warning":
+		return e.Status >= 400
+	case "error":
+		return e.Status >= 500
+	}
+	return false
+}
+
+// engineLog is the logger of the given level; what it is handed is encoded (as a user's logger does) and dropped.
+func engineLog(level string) *zap.Logger {
+	var lvl zapcore.Level
+	switch level {
+	case "debug":
+		lvl = zapcore.DebugLevel
+	case "info":
+		lvl = zapcore.InfoLevel
+	default:
+		return pand.NopLog()
+	}
+	return zap.New(zapcore.NewCore(zapcore.NewConsoleEncoder(zap.NewDevelopmentEncoderConfig()), zapcore.AddSync(io.Discard), lvl))
 }
 
 // shots: how many ammo the provider delivers (the entries in file order, again from the first one on every pass).
@@ -99,8 +140,8 @@ func genHTTP(t *rapid.T) HTTPCase {
 			e.Tag = rapid.StringMatching(`[a-zA-Z0-9_]{1,8}`).Draw(t, "tag")
 		}
 		if rapid.IntRange(0, 4).Draw(t, "fails") == 0 {
-			e.Fail = rapid.SampledFrom([]string{"reset", "timeout", "short_body"}).Draw(t, "fail")
-			if e.Fail == "short_body" && (e.Status == 204 || e.Status == 304) {
+			e.Fail = rapid.SampledFrom([]string{"reset", "timeout", "short_body", "short_chunked"}).Draw(t, "fail")
+			if e.bodyCut() && (e.Status == 204 || e.Status == 304) {
 				e.Status = 200 // these statuses carry no body, so there is no body to cut short
 			}
 		}
@@ -144,6 +185,9 @@ func genHTTP(t *rapid.T) HTTPCase {
 		c.Passes = rapid.IntRange(1, 3).Draw(t, "passes")
 		c.Limit = rapid.IntRange(1, lim).Draw(t, "limit")
 	}
+	// what is logged on the side: the codes of a sample do not depend on it
+	c.LogLevel = rapid.SampledFrom([]string{"", "info", "debug", "debug"}).Draw(t, "logLevel")
+	c.AnswLog = rapid.SampledFrom([]string{"", "", "all", "all", "warning", "error"}).Draw(t, "answLog")
 	return c
 }
 
@@ -304,6 +348,11 @@ func checkHTTP(c HTTPCase, o *vf.Obs) error {
 			return target.Resp{Hijack: func(conn net.Conn, rw ioRW) {
 				fmt.Fprintf(rw, "HTTP/1.1 %d X\r\nContent-Length: 100\r\nContent-Type: text/plain\r\n\r\nshort", e.Status)
 			}}
+		case "short_chunked":
+			// one whole chunk, then a chunk announced with 0x40 bytes of which 9 arrive before the connection is closed
+			return target.Resp{Hijack: func(conn net.Conn, rw ioRW) {
+				fmt.Fprintf(rw, "HTTP/1.1 %d X\r\nTransfer-Encoding: chunked\r\nContent-Type: text/plain\r\n\r\n5\r\nwhole\r\n40\r\ncut short", e.Status)
+			}}
 		}
 		return target.Resp{Status: e.Status, Body: []byte("body")}
 	})
@@ -348,6 +397,16 @@ func checkHTTP(c HTTPCase, o *vf.Obs) error {
 	gun := map[string]any{"type": "http", "target": addr, "response-header-timeout": "200ms",
 		"dial":     map[string]any{"timeout": "2s"},
 		"auto-tag": map[string]any{"enabled": c.AutoTag, "uri-elements": c.Elements, "no-tag-only": c.NoTagOnly}}
+	if c.AnswLog != "" {
+		// the answ log is a file of the real file system (lib/answlog: os.Create)
+		af, err := os.CreateTemp("", "c10-answ-*.log")
+		if err != nil {
+			return fmt.Errorf("harness: %v", err)
+		}
+		_ = af.Close()
+		defer os.Remove(af.Name())
+		gun["answlog"] = map[string]any{"enabled": true, "path": af.Name(), "filter": c.AnswLog}
+	}
 	pool := map[string]any{
 		"id": "p", "gun": gun,
 		"ammo":    ammoConf,
@@ -359,7 +418,7 @@ func checkHTTP(c HTTPCase, o *vf.Obs) error {
 	if err := pand.Decode(map[string]any{"pools": []any{pool}}, &conf); err != nil {
 		return fmt.Errorf("valid pool config rejected: %v", err)
 	}
-	eng := engine.New(pand.NopLog(), pand.Metrics(), conf)
+	eng := engine.New(engineLog(c.LogLevel), pand.Metrics(), conf)
 	var runErr error
 	ok, stacks := vf.Deadline(60*time.Second, func() { runErr = eng.Run(context.Background()) })
 	if !ok {
@@ -397,7 +456,7 @@ func checkHTTP(c HTTPCase, o *vf.Obs) error {
 				k.proto, k.netOK = 0, false
 			case e.Fail == "reset" || e.Fail == "timeout":
 				k.proto, k.netOK = 0, false
-			case e.Fail == "short_body":
+			case e.bodyCut():
 				k.proto, k.netOK = e.Status, false
 			default:
 				k.proto, k.netOK = e.Status, true
@@ -431,9 +490,40 @@ func checkHTTP(c HTTPCase, o *vf.Obs) error {
 	}
 	if len(diffs) > 0 {
 		sort.Strings(diffs)
-		return fmt.Errorf("%s: samples differ from the model (auto-tag enabled=%v elements=%d no-tag-only=%v):\n  %s\n--- phout ---\n%s", c.what(), c.AutoTag, c.Elements, c.NoTagOnly, strings.Join(diffs, "\n  "), data)
+		return fmt.Errorf("%s: samples differ from the model (auto-tag enabled=%v elements=%d no-tag-only=%v; log level %q, answlog filter %q):\n  %s\n--- phout ---\n%s", c.what(), c.AutoTag, c.Elements, c.NoTagOnly, c.LogLevel, c.AnswLog, strings.Join(diffs, "\n  "), data)
 	}
 	nonOK, fails := false, false
+	// logging on the side x exchanges that fail while the body is read (entries that were shot, target reachable)
+	o.Class("log_level_" + map[string]string{"": "none", "info": "info", "debug": "debug"}[c.LogLevel])
+	o.ClassIf(c.AnswLog != "", "answlog_enabled")
+	// (each class counted once per case)
+	seen := map[string]bool{}
+	mark := func(cond bool, name string) {
+		if cond && !seen[name] {
+			seen[name] = true
+			o.Class(name)
+		}
+	}
+	for i, e := range c.Entries {
+		if i >= total || c.Refused {
+			continue
+		}
+		if e.Fail == "" {
+			mark(c.LogLevel == "debug", "answered_with_debug_log")
+			mark(c.answLogged(e), "answered_and_answ_logged")
+		}
+		if !e.bodyCut() {
+			continue
+		}
+		mark(true, "body_cut_after_headers")
+		mark(c.LogLevel == "debug", "body_cut_after_headers_debug_log")
+		mark(c.LogLevel == "debug", "body_cut_after_headers_debug_log_"+e.Fail)
+		mark(c.LogLevel == "info", "body_cut_after_headers_info_log")
+		mark(c.answLogged(e), "body_cut_after_headers_answ_logged")
+		mark(c.answLogged(e), "body_cut_after_headers_answ_logged_"+e.Fail)
+		mark(c.answLogged(e) && c.LogLevel == "debug", "body_cut_after_headers_debug_log_and_answ_logged")
+		mark(c.LogLevel == "" && !c.answLogged(e), "body_cut_after_headers_nothing_logged")
+	}
 	for _, e := range c.Entries {
 		if e.NoPath != "" {
 			o.Class("uri_without_path", "uri_without_path_"+e.NoPath)
